@@ -203,6 +203,15 @@ static void
 finish(int outcome, int code, int exitcode)
 {
   vs_rec->heap_live_end = heap_live;
+  /* lbzip2 gives back every block before a successful exit (only the argument
+     vector of the harness stays): anything else still allocated was lost on
+     the way -- per block or per operand, so it grows with the input (C13) */
+  if (outcome == OC_EXIT && (code == 0 || code == 4) && heap_live > 4096) {
+    if (!(vs_rec->inv_flags & ~(64u | 32u | 128u)))
+      snprintf(vs_rec->note, sizeof vs_rec->note, "%llu bytes of heap never released at exit status %d",
+               (unsigned long long)heap_live, code);
+    vs_rec->inv_flags |= 1024;
+  }
   vs_rec->nthreads = nthreads;
   vs_rec->code = code;
   __atomic_store_n(&vs_rec->outcome, outcome, __ATOMIC_SEQ_CST);
@@ -1152,10 +1161,69 @@ canary_check(void *user)
     }
 }
 
+/* Big blocks (the decoder's 3.6 MB array, encoder state) are kept by the
+   harness and handed out again instead of going back to the allocator: glibc
+   would map/unmap them (see mallopt in vs_inproc_init), and the
+   AddressSanitizer allocator maps, poisons and unmaps every large chunk, which
+   made the asan variant 50x slower than the code under test.  Under ASan
+   (-DVS_ASAN) a kept block is poisoned while nobody owns it, so use after free
+   and overruns are still reported. */
+#ifdef VS_ASAN
+void __asan_poison_memory_region(void const volatile *addr, size_t size);
+void __asan_unpoison_memory_region(void const volatile *addr, size_t size);
+#define BIG_POISON(p, n) __asan_poison_memory_region(p, n)
+#define BIG_UNPOISON(p, n) __asan_unpoison_memory_region(p, n)
+#else
+#define BIG_POISON(p, n) ((void)0)
+#define BIG_UNPOISON(p, n) ((void)0)
+#endif
+#define NBIG 48
+#define BIG_MIN (512u << 10)
+static struct { char *b; size_t total; int busy; } BIGC[NBIG];
+
+static char *
+raw_get(size_t total)
+{
+  int i;
+#ifndef VS_TSAN   /* ThreadSanitizer resets its shadow state in malloc/free: reuse without them would look like races */
+  if (total >= BIG_MIN && vs_inproc) {
+    for (i = 0; i < NBIG; i++)
+      if (BIGC[i].b && !BIGC[i].busy && BIGC[i].total == total) {
+        BIGC[i].busy = 1;
+        BIG_UNPOISON(BIGC[i].b, total);
+        return BIGC[i].b;
+      }
+    for (i = 0; i < NBIG; i++)
+      if (!BIGC[i].b) {
+        BIGC[i].b = malloc(total);
+        if (!BIGC[i].b)
+          return NULL;
+        BIGC[i].total = total;
+        BIGC[i].busy = 1;
+        return BIGC[i].b;
+      }
+  }
+#endif
+  return malloc(total);
+}
+
+static void
+raw_put(char *b)
+{
+  int i;
+  for (i = 0; i < NBIG; i++)
+    if (BIGC[i].b == b) {
+      BIGC[i].busy = 0;
+      BIG_POISON(b, BIGC[i].total);
+      return;
+    }
+  free(b);
+}
+
 void *
 vs_malloc(size_t n)
 {
-  char *b = malloc(n + VS_HDR + VS_CAN);
+  char *b = raw_get(n + VS_HDR + VS_CAN);
   void *p = NULL;
   if (b) {
     struct vs_hdr *h = (struct vs_hdr *)b;
@@ -1186,7 +1254,7 @@ vs_free(void *p)
     canary_check(p);
     __atomic_sub_fetch(&heap_live, malloc_usable_size(b), __ATOMIC_RELAXED);
     ((struct vs_hdr *)b)->magic = 0;
-    free(b);
+    raw_put(b);
   }
   else {
     /* not ours (allocated by libc on lbzip2's behalf): just free it */
@@ -1505,7 +1573,7 @@ vs_inproc_run(void)
   for (i = 0; i < HT_SIZE && ht_n > 0; i++)
     if (HT[i]) {
       canary_check(HT[i]);
-      free((char *)HT[i] - VS_HDR);
+      raw_put((char *)HT[i] - VS_HDR);
       HT[i] = NULL;
       ht_n--;
     }
